@@ -1872,8 +1872,9 @@ class SQLGenerator:
                     if current:
                         parts.append((current, in_quotes))
 
-                    # Only replace in non-quoted parts
-                    pattern = f"{model_name}\\.([a-zA-Z_][a-zA-Z0-9_]*)"
+                    # Only replace in non-quoted parts; the model name must not be the tail of a
+                    # longer identifier (items vs line_items)
+                    pattern = f"(?<![A-Za-z0-9_]){re.escape(model_name)}\\.([a-zA-Z_][a-zA-Z0-9_]*)"
 
                     def replace_field(match):
                         field_name = match.group(1)
@@ -1908,8 +1909,9 @@ class SQLGenerator:
                 parsed_having = filter_expr
                 for model_name in [base_model_name] + other_models:
                     model_obj = self.graph.get_model(model_name)
-                    # Replace model.field with just field (aggregated column name)
-                    pattern = f"{model_name}\\.([a-zA-Z_][a-zA-Z0-9_]*)"
+                    # Replace model.field with just field (aggregated column name); the model name
+                    # must not be the tail of a longer identifier (items vs line_items)
+                    pattern = f"(?<![A-Za-z0-9_]){re.escape(model_name)}\\.([a-zA-Z_][a-zA-Z0-9_]*)"
 
                     def replace_metric_ref(match):
                         field_name = match.group(1)
